@@ -28,5 +28,11 @@ ScriptsFor(c) == {[head |-> hf[1], fam |-> hf[2], pay |-> p, sni |-> n] :
                      hf \in {x \in MCHeadFam : HeadSel = {} \/ x[1] \in HeadSel}, p \in PaysFor(c), n \in SnisFor(c)}
 MCUniverse == UNION {{[c |-> c, s |-> s] : s \in ScriptsFor(c)} : c \in {x \in MCCfgs : ProtoSel = {} \/ x.proto \in ProtoSel}}
 
-MCView == vars
+(* Internal steps first: a listener that has bytes to look at looks at them before the   *)
+(* client's next move.  The lagging interleavings this leaves out (a timer firing while    *)
+(* unread bytes wait) end in the same states as the ones in which those bytes are sent     *)
+(* after the timer; they are part of Spec, of the reduced-universe run and of every        *)
+(* validated trace.                                                                        *)
+UNext == Internal \/ (~ENABLED Internal /\ (Timeout \/ RtFire \/ SendAny \/ Fin \/ TableAny))
+USpec == Init /\ [][UNext]_vars /\ WF_vars(Internal) /\ WF_vars(Timeout) /\ WF_vars(RtFire)
 =============================================================================
